@@ -162,6 +162,14 @@ def jobs(tier, seed):
                        'cfg': {'cir': 8, 'cbs': 4, 'pir': pir, 'pbs': pbs, 'n': n, 'sorts': sort}})
     js.append({'harness': 'trtb', 'weight': 5,
                'cfg': {'cir': 8, 'cbs': 4, 'pir': 16, 'pbs': 6, 'n': n, 'sorts': 'int', 'burst': [0] + [1] * (n - 1)}})
+    # longer workloads, few timing variables: two bursts of three
+    m = 6 if tier == 'quick' else 7
+    js.append({'harness': 'tb', 'weight': 40, 'opts': {'max_paths': 20000},
+               'cfg': {'rate': 8, 'bucket': 4, 'peak': None, 'n': m + 1, 'sorts': 'int', 'burst': [0, 1, 1, 0, 1, 1, 1, 1][:m + 1]}})
+    js.append({'harness': 'tb', 'weight': 40, 'opts': {'max_paths': 20000},
+               'cfg': {'rate': 8, 'bucket': 4, 'peak': 64, 'n': 4, 'sorts': 'int', 'burst': [0, 1, 1, 1]}})
+    js.append({'harness': 'trtb', 'weight': 40, 'opts': {'max_paths': 20000},
+               'cfg': {'cir': 8, 'cbs': 4, 'pir': 16, 'pbs': 6, 'n': m - 1, 'sorts': 'int', 'burst': [0, 1, 1, 0, 1, 1, 1][:m - 1]}})
     return js
 
 
